@@ -5,6 +5,7 @@ import (
 	"encoding/binary"
 	"errors"
 	"fmt"
+	"net"
 	"regexp"
 	"strings"
 	"time"
@@ -245,6 +246,14 @@ func (h c03Handlers) String() string {
 
 var errHandler = errors.New("handler: injected failure")
 
+// handlerTimeout is errHandler in the shape of a timeout
+type handlerTimeout struct{}
+
+func (handlerTimeout) Error() string        { return "handler: injected failure (i/o timeout)" }
+func (handlerTimeout) Timeout() bool        { return true }
+func (handlerTimeout) Temporary() bool      { return true }
+func (handlerTimeout) Is(target error) bool { return target == errHandler }
+
 // runDo executes the query against the script and returns the observed trace and result class.
 type c03Run struct {
 	trace   []string
@@ -292,6 +301,12 @@ func doScriptX(sc *simClient, s *respScript, h c03Handlers, segs []int, perPacke
 	fail := func() error {
 		calls++
 		if h.failAt >= 0 && calls-1 == h.failAt {
+			if h.failAt%2 == 1 {
+				// a handler that failed on a deadline of its own (e.g. forwarding the block to another connection):
+				// a *net.OpError with Timeout() == true — the shape the receive loop treats as "read again" when it
+				// comes from reading the packet code, and must not when it comes from a callback
+				return fmt.Errorf("forward block: %w", &net.OpError{Op: "write", Net: "tcp", Err: handlerTimeout{}})
+			}
 			return errHandler
 		}
 		return nil
